@@ -97,6 +97,26 @@ def run(res):
             C.add_edge(0, n + 7)
             if canon(G) != canon(impl_graph(adj, order)):
                 res.violation('mutating a clone changed the original', {'adjacency': obs})
+            # the node set X in every container type (a one-shot iterator only for get_subgraph: get_reachable_set_from
+            # documents "a container of nodes")
+            Xs = [v for v in range(n + 2) if rng.random() < 0.5]
+            want_sub = canon(G.get_subgraph(list(Xs)))
+            want_reach = sorted(G.get_reachable_set_from([x for x in Xs if x < n]))
+            Xin = [x for x in Xs if x < n]
+            for kind, mkc in (('tuple', tuple), ('set', set), ('frozenset', frozenset), ('dict', lambda l: dict.fromkeys(l)),
+                              ('dict keys view', lambda l: dict.fromkeys(l).keys()), ('iterator', iter),
+                              ('generator', lambda l: (x for x in l)), ('map object', lambda l: map(int, l)),
+                              ('list with repetitions', lambda l: list(l) + list(l))):
+                got = canon(G.get_subgraph(mkc(Xs)))
+                if got != want_sub:
+                    res.violation('get_subgraph(X) with X given as a %s differs from X given as a list: %s vs %s' % (kind, got, want_sub),
+                                  {'adjacency': obs, 'X': Xs, 'container': kind})
+                if kind in ('iterator', 'generator', 'map object'):
+                    continue
+                gotr = sorted(G.get_reachable_set_from(mkc(Xin)))
+                if gotr != want_reach:
+                    res.violation('get_reachable_set_from(X) with X given as a %s differs from X given as a list: %s vs %s'
+                                  % (kind, gotr, want_reach), {'adjacency': obs, 'X': Xin, 'container': kind})
             # history: the caller edits what an earlier call returned; the same call on the unchanged graph must give the
             # same answer again (and leave G alone)
             first = {'reversed': canon(G.get_reversed_graph()), 'subgraph': canon(G.get_subgraph(list(range(n)))),
